@@ -287,7 +287,8 @@ Print Assumptions C01_calm_checked.
         view up to date (an added x becomes a waiting joiner, a removed x leaves the view); the scheduler can only
         answer with a batch of restore, join-CREATE and KILL requests (no ADD, no DELETE, no errNotEnoughNodeHost,
         no panic); running members keep running ([C01_mend_round], [C01_heal_stage_view_behind]);
-      - a rank strictly decreases in every healthy round from Mend while the fleet is not healed ([C01_mend_progress]);
+      - a rank strictly decreases in every healthy round while the fleet is not healed ([C01_mend_progress] from Mend,
+        [C01_menda_progress] from MendA);
       - after detect_rounds + 4 healthy rounds from Mend, resp. detect_rounds + 5 from MendA, the fleet is healed and
         stays healed ([C01_heal_mend], [C01_heal_menda]); detect_rounds = ttl / (nticks * step) + 1.
     No fleet-size premise is needed: nothing is added from these states (no errNotEnoughNodeHost is possible).
@@ -348,6 +349,14 @@ Theorem C01_heal_menda : forall (P : params) (os : list outcome) (st st' : fstat
   Mend st' /\ healed P st' = true.
 Proof. exact menda_heal. Qed.
 Print Assumptions C01_heal_menda.
+
+(* the rank over the whole class: a shard whose view is behind outranks everything Mend's rank can reach *)
+Theorem C01_menda_progress : forall (P : params) (st st' : fstate) (plogs : N -> bool) (nticks : nat) (o : outcome),
+  MendA st -> (forall a, plogs a = true) -> (0 < nticks)%nat -> 0 < p_step P -> N.of_nat nticks * p_step P <= p_ttl P ->
+  healed P st = false -> healthy_round P plogs nticks o st = Some st' ->
+  (menda_rank P st' < menda_rank P st)%nat.
+Proof. exact menda_progress. Qed.
+Print Assumptions C01_menda_progress.
 
 Theorem C01_mend_checked : forall st, LoopInv st -> mend_restb st = true -> Mend st.
 Proof. exact mend_restb_sound. Qed.
